@@ -616,6 +616,29 @@ pub fn main(args: &[String]) -> i32 {
         emit(&J::obj().set("type", J::s("summary")).set("workload", J::s("w_chain")).set("evaluations", J::u(1)).set("distinct_keys", J::arr([J::s("late-handler")])).set("samples", J::arr([J::s(&detail)])).set("violations", J::u(1)));
         return 1;
     }
+    // a delivery stalled at every site inside the dispatcher while the first registration completes and another begins
+    {
+        let rep = stalled_dispatch_sweep();
+        for b in rep.bad.iter().take(3) {
+            emit_violation("C04", if b.contains("process ended") { "stalled-delivery-crashes" } else { "prev-not-called-once-for-stalled-delivery" }, b);
+        }
+        emit(&J::obj()
+            .set("type", J::s("summary"))
+            .set("workload", J::s("w_chain"))
+            .set("mode", J::s("stalled-dispatch"))
+            .set("evaluations", J::u(rep.trials))
+            .set("distinct_keys", J::arr(rep.keys.iter().map(|k| J::s(k))))
+            .set("stalled_dispatch_trials", J::u(rep.trials))
+            .set("stalled_dispatch_parked", J::u(rep.parked))
+            .set("violations", J::u(rep.bad.len().min(3) as u64)));
+        if !rep.bad.is_empty() {
+            return 1;
+        }
+        if let Some(r) = rep.inconclusive {
+            emit(&J::obj().set("type", J::s("inconclusive")).set("reason", J::s(&r)));
+            return 2;
+        }
+    }
     let mut bad: Vec<(String, String)> = Vec::new();
     let mut keys = std::collections::HashSet::new();
     let mut samples = Vec::new();
@@ -753,6 +776,196 @@ fn late_handler_probe() -> Option<String> {
         End::Exit(0) if line == "LATE runs=1 depth=1 actions=2" => None,
         other => Some(format!("a handler the application installed on top of the library's (and that chains to it) plus a later registration: one delivery gave '{}' (expected runs=1 depth=1 actions=2), process ended {:?}: the dispatcher calls the application's handler back", line, other)),
     }
+}
+
+// ------------------------------------------------------------------------------------------
+// A delivery stalled somewhere inside the dispatcher while the rest of the world moves on.
+
+static SD_H: AtomicU64 = AtomicU64::new(0);
+static SD_EXITS: AtomicU64 = AtomicU64::new(0);
+static SD_N: AtomicU64 = AtomicU64::new(0);
+#[allow(clippy::declare_interior_mutable_const)]
+const SD0: AtomicU64 = AtomicU64::new(0);
+static SD_SEQ: [AtomicU64; 64] = [SD0; 64];
+
+/// Sites passed by the one delivery (only the victim thread has that class).
+fn sd_observer(s: u32, _a: usize, _b: usize) {
+    if crate::CLASS.with(|c| c.get()) & class::VICTIM == 0 {
+        return;
+    }
+    let i = SD_N.fetch_add(1, Ordering::SeqCst) as usize;
+    if i < 64 {
+        SD_SEQ[i].store(s as u64, Ordering::SeqCst);
+    }
+    if s == site::DISPATCH_EXIT {
+        SD_EXITS.fetch_add(1, Ordering::SeqCst);
+    }
+}
+
+extern "C" fn h_sd(_sig: c_int, _info: *mut siginfo_t, _ctx: *mut c_void) {
+    SD_H.fetch_add(1, Ordering::SeqCst);
+}
+
+/// One trial (in a forked child). Signal A has a real handler H of the application. T1 starts the first registration of A
+/// and is held right after its sigaction() - the window is open. One delivery of A goes to T2, which is parked at the
+/// `occ`-th arrival at `site` inside its dispatch (None: not parked, the sequence of sites it passes is reported). Then
+/// T1 is let go (it completes unless T2 holds what it has to wait for), T3 makes the first registration of another
+/// signal (which overwrites the race fallback, unless T2 holds what it has to wait for), and T2 goes on.
+/// H must have run exactly once for that one delivery, wherever T2 stood meanwhile.
+fn stalled_dispatch_child(fd: i32, pause: Option<(u32, u64)>) -> i32 {
+    use fork::wr;
+    let a = libc::SIGUSR1;
+    let b = libc::SIGUSR2;
+    crate::set_thread(1, class::MAIN);
+    director::install();
+    director::set_observer(Some(sd_observer));
+    unsafe {
+        crate::sig::install_raw(a, h_sd as usize, libc::SA_RESTART | libc::SA_SIGINFO);
+    }
+    director::set_rule(site::REG_AFTER_SIGACTION, RuleSpec { mode: mode::PAUSE, class_mask: class::MUTATOR, nth: 1, arg: 0, ..Default::default() });
+    if let Some((s, occ)) = pause {
+        director::set_rule(s, RuleSpec { mode: mode::PAUSE, class_mask: class::VICTIM, nth: occ, arg: 1, ..Default::default() });
+    }
+    let wait = |what: &str, f: &dyn Fn() -> bool, ms: u64| -> bool {
+        let t0 = crate::now_ms();
+        while !f() {
+            std::thread::yield_now();
+            if crate::now_ms() - t0 > ms {
+                let _ = what;
+                return false;
+            }
+        }
+        true
+    };
+    let acts = Arc::new(AtomicU64::new(0));
+    let acts2 = acts.clone();
+    let t1_done = Arc::new(AtomicBool::new(false));
+    let d1 = t1_done.clone();
+    let t1 = std::thread::spawn(move || {
+        crate::set_thread(20, class::MUTATOR);
+        let r = unsafe { signal_hook_registry::register(a, move || { acts2.fetch_add(1, Ordering::SeqCst); }) };
+        director::lib_exit();
+        d1.store(true, Ordering::SeqCst);
+        r.is_ok()
+    });
+    if !wait("T1 after sigaction", &|| director::parked_count(0) == 1, 5000) {
+        wr(fd, "SDINC the registering thread never reached the point after its sigaction()\n");
+        unsafe { libc::_exit(2) };
+    }
+    let stop = Arc::new(AtomicBool::new(false));
+    let stop2 = stop.clone();
+    let pth = Arc::new(AtomicUsize::new(0));
+    let pth2 = pth.clone();
+    let t2 = std::thread::spawn(move || {
+        crate::set_thread(10, class::VICTIM);
+        pth2.store(unsafe { libc::pthread_self() } as usize, Ordering::SeqCst);
+        pool::victim_spin(&stop2);
+    });
+    wait("T2 up", &|| pth.load(Ordering::SeqCst) != 0, 5000);
+    let exits = || SD_EXITS.load(Ordering::SeqCst);
+    crate::sig::queue_thread(pth.load(Ordering::SeqCst) as libc::pthread_t, a, 1);
+    if !wait("T2 parked or through", &|| director::parked_count(1) == 1 || exits() >= 1, 5000) {
+        wr(fd, "SDINC the delivery neither parked nor finished\n");
+        unsafe { libc::_exit(2) };
+    }
+    let parked = director::parked_count(1) == 1;
+    // the rest of the world moves on
+    director::rule_off(site::REG_AFTER_SIGACTION);
+    director::open_gate(0);
+    let t1_before = wait("T1 done", &|| t1_done.load(Ordering::SeqCst), 150);
+    let t3_done = Arc::new(AtomicBool::new(false));
+    let d3 = t3_done.clone();
+    let t3 = std::thread::spawn(move || {
+        crate::set_thread(21, class::KILLER);
+        let r = unsafe { signal_hook_registry::register(b, || ()) };
+        director::lib_exit();
+        d3.store(true, Ordering::SeqCst);
+        r.is_ok()
+    });
+    let t3_before = wait("T3 done", &|| t3_done.load(Ordering::SeqCst), 150);
+    if let Some((s, _)) = pause {
+        director::rule_off(s);
+    }
+    director::open_gate(1);
+    let all = wait("everything finished", &|| t1_done.load(Ordering::SeqCst) && t3_done.load(Ordering::SeqCst) && exits() >= 1, 10_000);
+    if !all {
+        wr(fd, &format!("SDSTUCK t1_done={} t3_done={} delivery_finished={}\n", t1_done.load(Ordering::SeqCst), t3_done.load(Ordering::SeqCst), exits() >= 1));
+        unsafe { libc::_exit(3) };
+    }
+    stop.store(true, Ordering::SeqCst);
+    let _ = t2.join();
+    let _ = t1.join();
+    let _ = t3.join();
+    // the sites the delivery passed, in order
+    let n = (SD_N.load(Ordering::SeqCst) as usize).min(64);
+    let seq: Vec<String> = (0..n).map(|i| SD_SEQ[i].load(Ordering::SeqCst).to_string()).collect();
+    wr(fd, &format!("SD h={} acts={} parked={} t1_before={} t3_before={} seq={}\n", SD_H.load(Ordering::SeqCst), acts.load(Ordering::SeqCst), parked, t1_before, t3_before, seq.join(",")));
+    wr(fd, "DONE\n");
+    0
+}
+
+struct StalledReport {
+    trials: u64,
+    parked: u64,
+    keys: Vec<String>,
+    bad: Vec<String>,
+    inconclusive: Option<String>,
+}
+
+fn stalled_dispatch_sweep() -> StalledReport {
+    let mut rep = StalledReport { trials: 0, parked: 0, keys: Vec::new(), bad: Vec::new(), inconclusive: None };
+    let field = |l: &str, k: &str| -> String { l.split_whitespace().find_map(|w| w.strip_prefix(&format!("{}=", k)).map(|v| v.to_string())).unwrap_or_default() };
+    let run = |pause: Option<(u32, u64)>| -> (End, String) {
+        let res = fork::probe(30_000, false, move |fd| stalled_dispatch_child(fd, pause));
+        let line = res.out.lines().find(|l| l.starts_with("SD")).unwrap_or("").to_string();
+        (res.end, line)
+    };
+    // the sites a delivery in the window passes when nobody interferes
+    let (end, line) = run(None);
+    rep.trials += 1;
+    if !matches!(end, End::Exit(0)) || !line.starts_with("SD h=") {
+        rep.inconclusive = Some(format!("calibration run ended {:?} '{}'", end, line));
+        return rep;
+    }
+    if field(&line, "h") != "1" {
+        rep.bad.push(format!("one delivery inside the window between sigaction() and publication, nobody stalled: '{}' (expected h=1)", line));
+        return rep;
+    }
+    let seq: Vec<u32> = field(&line, "seq").split(',').filter_map(|x| x.parse().ok()).collect();
+    let mut occ: std::collections::HashMap<u32, u64> = Default::default();
+    for s in seq {
+        let o = occ.entry(s).or_insert(0);
+        *o += 1;
+        let (s, o) = (s, *o);
+        let (end, line) = run(Some((s, o)));
+        rep.trials += 1;
+        let name = format!("{}#{}", director::site_name(s), o);
+        match end {
+            End::Exit(0) if line.starts_with("SD h=") => {
+                if field(&line, "parked") == "true" {
+                    rep.parked += 1;
+                }
+                rep.keys.push(format!("{} parked={} T1_finished_meanwhile={} T3_finished_meanwhile={}", name, field(&line, "parked"), field(&line, "t1_before"), field(&line, "t3_before")));
+                if field(&line, "h") != "1" {
+                    rep.bad.push(format!(
+                        "a delivery that arrived between sigaction() and the publication of the first registration was stalled at {} inside the dispatcher; meanwhile the registration completed: {}, another signal's first registration completed: {}; the application's previous handler ran {} times for that one delivery (actions {}), expected exactly once",
+                        name, field(&line, "t1_before"), field(&line, "t3_before"), field(&line, "h"), field(&line, "acts")
+                    ));
+                }
+            }
+            End::Exit(2) | End::Timeout => {
+                rep.inconclusive = Some(format!("trial {} ended {:?} '{}'", name, end, line));
+                return rep;
+            }
+            other => {
+                rep.bad.push(format!("a delivery stalled at {} inside the dispatcher while a registration completes and another begins: the process ended {:?} '{}'", name, other, line));
+            }
+        }
+        if !rep.bad.is_empty() {
+            break;
+        }
+    }
+    rep
 }
 
 fn classify(l: &str) -> &'static str {
